@@ -426,7 +426,7 @@ func (i *interpreter) symConv(t_dst, t_src types.Type, x value) value {
 			return i.termToGo(t_dst, r)
 		}
 		if isFloatType(t_dst) {
-			return &FV{Nan: c.False(), Inf: c.False(), V: c.ToReal(c.Bv2Int(xv, ssigned))}
+			return &FV{Nan: c.False(), Inf: c.False(), V: c.ToReal(c.Bv2IntSmart(xv, ssigned))}
 		}
 		if b, ok := ud.(*types.Basic); ok && b.Kind() == types.String {
 			// string(rune) of a symbolic value: only ASCII supported
